@@ -215,6 +215,15 @@ func AddRandomMods(rng *rand.Rand, s *Spec, k ModKinds, p float64) {
 			}
 		}
 	}
+	if len(s.TypesP) > 0 && rng.Intn(10) == 0 {
+		// A content type may legally be both included and excluded (the
+		// exclusion wins); sometimes that goes for every included type.
+		if rng.Intn(2) == 0 {
+			s.TypesR = append(s.TypesR, s.TypesP...)
+		} else {
+			s.TypesR = append(s.TypesR, s.TypesP[rng.Intn(len(s.TypesP))])
+		}
+	}
 	if on(k.Domain) {
 		for _, d := range pickN(rng, DomainValues, 1+rng.Intn(6)) {
 			s.Domains = append(s.Domains, Val{Name: d, Neg: rng.Intn(3) == 0})
